@@ -326,6 +326,46 @@ class StreamsExcFamily(ScenarioFamily):
         return True
 
 
+class TraceRaceFamily(ScenarioFamily):
+    """Two or three concurrent requests on one HTTP/2 connection whose async 'trace'
+    callbacks await at every event, also between the allocation of the stream id and
+    the sending of the HEADERS (KF-C15-2)."""
+
+    chunk = 20
+
+    def __init__(self, name, nq, nt):
+        super().__init__("C15", name, nq, nt)
+
+    def generate(self, seed, index, tier):
+        ct = ["h2tls", "h2pk", "tun_h2", "socks_auth_h2"][index % 4]
+        b = base_scenario(seed, 22 + CTYPES.index(ct), "asyncio")      # company "shared"
+        b["trace_yields"] = "all"
+        for c in b["callers"]:
+            c["start"] = 0.0
+            for op in c["ops"]:
+                if op.get("op") == "request":
+                    op["trace"] = True
+        b["epilogue"] = ["close_pool"]
+        b.pop("probe_reuse", None)
+        b["c15"] = {"stage": "h2-trace"}
+        return b
+
+    def post(self, res, scn):
+        w = res.world
+        if res.error:
+            return
+        for key, out in sorted(res.outcomes.items()):
+            if "exc" in out:
+                # whatever the symptom (KeyError, LocalProtocolError from h2's stream state
+                # machine, a response delivered to the wrong caller): one root cause
+                w.violate("C15", "h2-same-stream-id-for-two-requests:awaiting-trace-callback",
+                          {"key": key, "exc": out["exc"], "msg": out.get("msg")})
+                return
+
+    def nontrivial(self, res, scn):
+        return True
+
+
 class CallerErrorFamily(ScenarioFamily):
     """Invalid requests from the caller give LocalProtocolError (HTTP/1.1; the HTTP/2 path
     does not validate, KF-C03-2)."""
@@ -410,5 +450,6 @@ register("C15", {
     FaultFamily("native-exceptions-threads-L2", "threads", 22, 220, seam="L2"),
     FaultFamily("native-exceptions-trio-L2", "trio", 22, 220, seam="L2"),
     StreamsExcFamily("h2-events-async", 1200, 24000),
+    TraceRaceFamily("h2-trace-race-async", 100, 2000),
     CallerErrorFamily("C15", "caller-errors-async", 600, 6000),
     ProxyReplyFamily("C15", "proxy-replies-async", 1500, 30000)])
